@@ -17,14 +17,14 @@ Local Open Scope R_scope.
 
 (** 1. exact dyadic evaluation = the real-number checker on the embedded data *)
 Theorem exact_arithmetic_is_real_checker :
-  forall n p k whiten (X : list (list dq)) mu sg W ev evr Qs invs,
-  let ka := pca_checks DQ_ops n p k whiten X mu sg W ev evr Qs invs in
+  forall n p k whiten (X : list (list dq)) mu sg W ev evr Qs invs Zs,
+  let ka := pca_checks DQ_ops n p k whiten X mu sg W ev evr Qs invs Zs in
   let kb := pca_checks R_ops n p k whiten (map (map D2R) X) (map D2R mu) (map D2R sg) (map (map D2R) W)
-                       (map D2R ev) (map D2R evr) (map (map D2R) Qs) (map (map D2R) invs) in
+                       (map D2R ev) (map D2R evr) (map (map D2R) Qs) (map (map D2R) invs) (map (map D2R) Zs) in
   k_mean ka = k_mean kb /\ k_shape ka = k_shape kb /\ k_sigma ka = k_sigma kb /\ k_orth ka = k_orth kb /\
   k_projcov ka = k_projcov kb /\ k_ev ka = k_ev kb /\ k_ratio ka = k_ratio kb /\
   k_roundtrip ka = k_roundtrip kb /\ k_resid ka = k_resid kb /\ k_coefs ka = k_coefs kb /\
-  k_bound ka = k_bound kb /\ D2R (k_T ka) = k_T kb /\ map (map D2R) (k_M ka) = k_M kb.
+  k_bound ka = k_bound kb /\ k_scores ka = k_scores kb /\ D2R (k_T ka) = k_T kb /\ map (map D2R) (k_M ka) = k_M kb.
 Proof. exact (hom_pca_checks D2R DQ_ops R_ops D2R_hom). Qed.
 
 (** 2. the reported mean is the column mean (up to the rounding of a float summation) *)
@@ -122,8 +122,8 @@ Proof. exact ky_fan_bound. Qed.
         more variance than the returned components (plus (k-m) mu0 for components the solver dropped
         below its cut-off), up to (k 2^-17 + 2^-20) trace(C) *)
 Theorem leading_subspace_certified :
-  forall n p k whiten (X : list (list dq)) mu sg W ev evr Qs invs,
-  let ks := pca_checks DQ_ops n p k whiten X mu sg W ev evr Qs invs in
+  forall n p k whiten (X : list (list dq)) mu sg W ev evr Qs invs Zs,
+  let ks := pca_checks DQ_ops n p k whiten X mu sg W ev evr Qs invs Zs in
   k_shape ks = true -> k_coefs ks = true -> k_bound ks = true -> lead_psd p (k_T ks) (k_M ks) = true ->
   let XR := map (map D2R) X in
   let WR := map (map D2R) W in
